@@ -374,6 +374,9 @@ def fmt_sprintf(it, st, args, fname):
             out += list(v.b)
         elif verb in 'sv' and isinstance(v, Str):
             out += list(v.b)
+        elif verb in 'sv' and t == '$fmterr':
+            o = st.heap[v.obj]
+            out += list(o[1].b) if isinstance(o[1], Str) and not o[2] else list(b'error')
         elif verb in 'dv' and t is not None and E.ty(t)['kind'] == 'int' and not is_sym(v):
             tt = E.ty(t)
             n = tosigned(v, tt['bits']) if tt.get('signed') else v
